@@ -50,6 +50,12 @@ def _batch_case(draw, md=False):
         case["solver"] = {"conv": [1], "sp2": [False], "eps": 1e-9}
         return case
     sol = draw(S.solver(allow_sp2=not uhf, allow_pulay=not uhf, eps_exp=(7, 10)))
+    if not uhf and not sol["sp2"][0] and sol["conv"][0] in (0, 1) and draw(st.integers(0, 3)) == 0:
+        # finite electronic temperature (Fermi occupations): scf_converger = [kind, alpha, "T_el", T]. Up to 20000 K so that the
+        # occupation of the first orbitals above the gap -- and of anything wrongly counted as an orbital -- is not negligible
+        T = draw(st.sampled_from([1500.0, 5000.0, 10000.0, 20000.0]))
+        sol["conv"] = [sol["conv"][0], sol["conv"][1] if sol["conv"][0] == 0 else 0.0, "T_el", T]
+        sol["T_el"] = T
     case["solver"] = sol
     case["mode"] = draw(st.sampled_from(["autodiff", "autodiff", "analytical", "seminum"]))
     if not uhf and all(M.ALL[r["tpl"]]["charge"] == 0 and M.n_ov(r["tpl"]) >= 4 for r in rows) and not sol["sp2"][0] and draw(st.integers(0, 3)) == 0:
@@ -101,6 +107,8 @@ def _run(case, Sx, X, charges, mult):
 def _tol(case):
     sol = case["solver"]
     t = 1e-9
+    if sol.get("T_el"):
+        t = 1e-6      # measured on the unchanged tree with Fermi occupations: alone vs batch <= 5e-8
     if sol["conv"][0] == 2:
         t = 1e-8 + 1e4 * sol["eps"]
     if sol["sp2"][0]:
@@ -126,6 +134,7 @@ class SinglePoint(SubCheck):
         nontrivial = (comps >= 2 and any(len(g[0]) < width for g in geoms)) or order != sorted(order)
         labels = ["method:" + case["rows"][0]["method"], "rows:%d" % len(geoms), "pad:" + case["pad"], "padw:%d" % case["padw"],
                   "uhf:%s" % case["uhf"], "mode:" + case["mode"]] + S.solver_labels(case["solver"])
+        labels += ["T_el:%g" % case["solver"]["T_el"]] if case["solver"].get("T_el") else []
         labels += ["cis"] if case.get("cis") else []
         labels += ["ion"] if any(g[2] for g in geoms) else []
         try:
@@ -201,7 +210,7 @@ class SinglePoint(SubCheck):
                         # recorded finding: Pulay's batch-global DIIS restart sends a row to a different SCF solution
                         return Outcome.fail("pulay_batch_other_scf_solution", f"row {b} ({case['rows'][k]['tpl']}): Etot alone {quantities['Etot'][0]:.6f} vs in batch {quantities['Etot'][1]:.6f} "
                                             f"(flagged converged both times), batch {[case['rows'][j]['tpl'] for j in order]}", labels, nontrivial)
-                    fam = "pulay" if case["solver"]["conv"][0] == 2 else ("sp2" if case["solver"]["sp2"][0] else ("uhf" if case["uhf"] else "rhf"))
+                    fam = "finiteT" if case["solver"].get("T_el") else "pulay" if case["solver"]["conv"][0] == 2 else ("sp2" if case["solver"]["sp2"][0] else ("uhf" if case["uhf"] else "rhf"))
                     return Outcome.fail(f"row_differs_from_alone:{name}:{fam}", f"row {b} ({case['rows'][k]['tpl']}) {name}: max |alone - in batch| = {d:.3e} > {t:.1e}; "
                                         f"batch {[case['rows'][j]['tpl'] for j in order]}, pad {case['pad']}/{case['padw']}", labels, nontrivial, **{name: d})
         return Outcome.ok(nontrivial, labels, **{"d_" + k: v for k, v in worst.items()})
